@@ -310,4 +310,5 @@ VERIF_HARNESS(h_signal_unregister_safe) { history<true>(true); }
 //@harness h_signal_{V} for V in all,safe param init=0..3 param steps=1..3 param op1=0..6 if ((init>0)|(op1!=1))&((init==3)|(op1!=4))&((init<3)|((op1!=3)&(op1!=6))) tier=quick leak=1 paths=200000
 //@harness h_signal_unregister_{V} for V in all,safe param init=0..3 param steps=1..2 param op1=0..6 if ((init>0)|(op1!=1))&((init==3)|(op1!=4))&((init<3)|((op1!=3)&(op1!=6))) tier=quick leak=1 paths=200000
 //@harness h_signal_unregister_{V} for V in all,safe param init=0..3 param steps=3 param op1=0..6 if ((init>0)|(op1!=1))&((init==3)|(op1!=4))&((init<3)|((op1!=3)&(op1!=6))) tier=thorough leak=1 paths=200000
-//@harness h_signal_safe param init=0..3 param steps=4..5 param op1=0..6 if ((init>0)|(op1!=1))&((init==3)|(op1!=4))&((init<3)|((op1!=3)&(op1!=6))) tier=thorough leak=1 paths=1000000 wall=1700
+//@harness h_signal_safe param init=0..3 param steps=4 param op1=0..6 if ((init>0)|(op1!=1))&((init==3)|(op1!=4))&((init<3)|((op1!=3)&(op1!=6))) tier=quick leak=1 paths=400000
+//@harness h_signal_safe param init=0..3 param steps=5 param op1=0..6 if ((init>0)|(op1!=1))&((init==3)|(op1!=4))&((init<3)|((op1!=3)&(op1!=6))) tier=thorough leak=1 paths=1000000 wall=1700
